@@ -131,6 +131,9 @@ def parse_cbmc_value(v):
     d = v.get('data')
     if d is None:
         return None
+    if isinstance(d, bool):
+        return int(d)
+    d = str(d)
     if d in ('TRUE', 'true'):
         return 1
     if d in ('FALSE', 'false'):
@@ -143,7 +146,7 @@ def parse_cbmc_value(v):
 
 def cbmc(gb, function, unwind=None, flags=(), timeout=600, mem_gb=16, unwindset=(), trace=True, checks=CBMC_CHECKS,
          drop_unused=True, solver=(), cvc5_int=False):
-    cmd = ['cbmc', gb, '--function', function, '--json-ui', '--unwinding-assertions'] + list(checks)
+    cmd = ['cbmc', gb, '--function', function, '--json-ui', '--verbosity', '8', '--unwinding-assertions'] + list(checks)
     if drop_unused:
         cmd.append('--drop-unused-functions')
     if unwind is not None:
@@ -305,3 +308,28 @@ def save_replay(prop, name, obj):
     with open(p, 'w') as f:
         json.dump(obj, f, indent=1, sort_keys=True, default=str)
     return p
+
+
+REAL_SRC = ['internal/common.c', 'internal/counter.c', 'internal/cv.c', 'internal/debug.c', 'internal/dll.c', 'internal/mu.c', 'internal/mu_wait.c',
+            'internal/note.c', 'internal/once.c', 'internal/sem_wait.c', 'internal/time_internal.c', 'internal/wait.c',
+            'platform/posix/src/nsync_panic.c', 'platform/posix/src/per_thread_waiter.c', 'platform/posix/src/time_rep.c', 'platform/posix/src/yield.c',
+            'platform/linux/src/nsync_semaphore_futex.c']
+
+
+def build_real_lib(ctx, extra_flags=()):
+    """The real C library built from the working tree with gcc (same sources and include path as the CMake C target)."""
+    out = ctx.path('real', 'libnsync_real.a')
+    if os.path.exists(out):
+        return out
+    objs = []
+    for sfile in REAL_SRC:
+        o = ctx.path('real', sfile.replace('/', '_') + '.o')
+        cmd = ['gcc', '-O2', '-g', '-c', '-o', o] + inc_flags() + list(extra_flags) + [repo_path(sfile)]
+        rc, so, se, w, _ = run(cmd, timeout=300)
+        if rc != 0:
+            raise RuntimeError('real lib build failed: %s' % se[-800:])
+        objs.append(o)
+    rc, so, se, w, _ = run(['ar', 'rcs', out] + objs)
+    if rc != 0:
+        raise RuntimeError('ar failed')
+    return out
